@@ -148,7 +148,8 @@ pub fn site(rng: &mut Rng, is_span: Option<bool>, max_fields: usize) -> Site {
             }
             // field lists that coincide once joined by a separator, empty names
             if rng.chance(1, 12) {
-                f = match rng.below(8) {
+                f = match rng.below(9) {
+                    8 => vec!["log.target".into(), "f1".into()],
                     6 => vec!["r#type".into(), "len".into(), "r#ref".into()],
                     7 => vec!["type".into(), "len".into(), "ref".into()],
                     0 => vec!["a".into(), "b".into()],
